@@ -62,6 +62,44 @@ func FactOf(cond ssa.Value, pol bool) Fact {
 	return Fact{Op: "==", L: t, R: falseT}
 }
 
+// normFact folds "(a <cmp> b) == true/false" — which arises when a boolean parameter is
+// replaced by the comparison passed for it — into the comparison itself.
+func normFact(f Fact) Fact {
+	for i := 0; i < 4; i++ {
+		if f.Op != "==" && f.Op != "!=" {
+			return f
+		}
+		l, r := f.L, f.R
+		if l != nil && l.Op == "const" && (l.Name == "true" || l.Name == "false") {
+			l, r = r, l
+		}
+		if l == nil || r == nil || r.Op != "const" || (r.Name != "true" && r.Name != "false") {
+			return f
+		}
+		want := (r.Name == "true") == (f.Op == "==")
+		if l.Op == "binop" && len(l.Args) == 2 {
+			if _, isCmp := negOp[l.Name]; isCmp {
+				op := l.Name
+				if !want {
+					op = negOp[op]
+				}
+				f = Fact{Op: op, L: l.Args[0], R: l.Args[1], If: f.If, Succ: f.Succ}
+				continue
+			}
+		}
+		if l.Op == "unop" && l.Name == "!" && len(l.Args) == 1 {
+			nr := trueT
+			if want {
+				nr = falseT
+			}
+			f = Fact{Op: "==", L: l.Args[0], R: nr, If: f.If, Succ: f.Succ}
+			continue
+		}
+		return f
+	}
+	return f
+}
+
 // FuncFacts caches per-function edge-dominance facts.
 type FuncFacts struct {
 	Fn     *ssa.Function
@@ -144,7 +182,7 @@ func FactsFor(fn *ssa.Function) *FuncFacts {
 			for _, f := range fs {
 				nl, nr := SubstTerm(f.L, sub), SubstTerm(f.R, sub)
 				if nl != f.L || nr != f.R {
-					extra = append(extra, Fact{Op: f.Op, L: nl, R: nr, If: f.If, Succ: f.Succ})
+					extra = append(extra, normFact(Fact{Op: f.Op, L: nl, R: nr, If: f.If, Succ: f.Succ}))
 				}
 			}
 			ff.byBlk[blk] = append(fs, extra...)
@@ -153,7 +191,7 @@ func FactsFor(fn *ssa.Function) *FuncFacts {
 		for _, e := range ff.edges {
 			nl, nr := SubstTerm(e.fact.L, sub), SubstTerm(e.fact.R, sub)
 			if nl != e.fact.L || nr != e.fact.R {
-				extraEdges = append(extraEdges, edgeFact{e.from, e.succ, Fact{Op: e.fact.Op, L: nl, R: nr, If: e.fact.If, Succ: e.fact.Succ}})
+				extraEdges = append(extraEdges, edgeFact{e.from, e.succ, normFact(Fact{Op: e.fact.Op, L: nl, R: nr, If: e.fact.If, Succ: e.fact.Succ})})
 			}
 		}
 		ff.edges = append(ff.edges, extraEdges...)
@@ -320,7 +358,7 @@ func impliedByPredicate(f Fact, depth int) []Fact {
 	}
 	var out []Fact
 	for _, x := range common {
-		out = append(out, Fact{Op: x.Op, L: SubstTerm(x.L, sub), R: SubstTerm(x.R, sub)})
+		out = append(out, normFact(Fact{Op: x.Op, L: SubstTerm(x.L, sub), R: SubstTerm(x.R, sub)}))
 	}
 	sort.Slice(out, func(i, j int) bool { return out[i].String() < out[j].String() })
 	return out
@@ -410,7 +448,7 @@ func impliedByNilError(f Fact) []Fact {
 	}
 	var out []Fact
 	for _, x := range common {
-		out = append(out, Fact{Op: x.Op, L: SubstTerm(x.L, sub), R: SubstTerm(x.R, sub)})
+		out = append(out, normFact(Fact{Op: x.Op, L: SubstTerm(x.L, sub), R: SubstTerm(x.R, sub)}))
 	}
 	sort.Slice(out, func(i, j int) bool { return out[i].String() < out[j].String() })
 	return out
@@ -736,7 +774,7 @@ func predicateOnlyThrough(f Fact, m FactM, depth int) bool {
 		}
 		m0 := m
 		m = func(x Fact) bool {
-			return m0(x) || m0(Fact{Op: x.Op, L: SubstTerm(x.L, sub), R: SubstTerm(x.R, sub)})
+			return m0(x) || m0(normFact(Fact{Op: x.Op, L: SubstTerm(x.L, sub), R: SubstTerm(x.R, sub)}))
 		}
 	}
 	cut := func(b *ssa.BasicBlock, k int) bool { return edgeFactMatches(b, k, m, depth+1) }
@@ -1264,7 +1302,7 @@ func boolLeaves(v ssa.Value, at *ssa.BasicBlock, depth int) []Leaf {
 						fs := append([]Fact{}, lf.Facts...)
 						fs = append(fs, FactOf(lf.V, constText(kc) == "true"))
 						for _, x := range append(append([]Fact{}, gf.At(ret.Block())...), l2.Facts...) {
-							fs = append(fs, Fact{Op: x.Op, L: SubstTerm(x.L, sub), R: SubstTerm(x.R, sub)})
+							fs = append(fs, normFact(Fact{Op: x.Op, L: SubstTerm(x.L, sub), R: SubstTerm(x.R, sub)}))
 						}
 						inner = append(inner, Leaf{V: kc, Facts: fs})
 					}
